@@ -243,11 +243,16 @@ def install_target(reg):
 
     def post(c):
         v, r = c.sd, c.result
-        return common_sd(c) + [
-            ("true_means_target_region_explored", z3.Implies(r, z3.And(c.seen[0], z3.ForAll([x], processed(v, c.seen, x, z3.BoolVal(False), c.target))))),
-            ("false_only_at_size_limit_with_a_stub", z3.Implies(z3.Not(r), z3.And(
-                z3.Not(OI.is_none(c.size_limit)), v.K >= OI.val(c.size_limit), z3.Exists([x], z3.And(S.valid(v, x), z3.Not(v.expanded[x])))))),
-        ]
+        cl = common_sd(c)
+        try:
+            seen = c.seen         # a local of the driver: only its own body can state the exploration clause
+        except AttributeError:
+            seen = None
+        if seen is not None:
+            cl.append(("true_means_target_region_explored", z3.Implies(r, z3.And(seen[0], z3.ForAll([x], processed(v, seen, x, z3.BoolVal(False), c.target))))))
+        cl.append(("false_only_at_size_limit_with_a_stub", z3.Implies(z3.Not(r), z3.And(
+            z3.Not(OI.is_none(c.size_limit)), v.K >= OI.val(c.size_limit), z3.Exists([x], z3.And(S.valid(v, x), z3.Not(v.expanded[x])))))))
+        return cl
 
     names_common = ["inv." + n for n in inv_names()] + ["extends_entry_diagram", "config_kept"]
     pick = lambda fn, nm: (lambda c: dict(fn(c))[nm])
@@ -449,7 +454,12 @@ def install_minimal(reg):
         ]
 
     def post(c):
-        v, r, am = c.sd, c.result, c.local("all_minimal_traps")
+        v, r = c.sd, c.result
+        try:
+            am = c.local("all_minimal_traps")
+        except (KeyError, AttributeError):
+            return common_sd(c) + [("false_only_at_the_size_limit_with_a_stub", z3.Implies(z3.Not(r), z3.And(
+                z3.Not(OI.is_none(c.size_limit)), v.K >= OI.val(c.size_limit), z3.Exists([x], z3.And(S.valid(v, x), z3.Not(v.expanded[x]))))))]
         return common_sd(c) + [
             ("enumeration_of_the_minimal_trap_spaces_inside_the_start_node", z3.Implies(r, T.IsEnum(am, T.MinTrapSet(N(c.old.sd), R(c))))),
             ("true_means_every_minimal_trap_space_is_an_expanded_leaf", z3.Implies(r, z3.ForAll([k_], z3.Implies(
@@ -520,3 +530,120 @@ def install_minimal(reg):
         raising_asserts=["len(minimal_traps) == 0"],
         note="AssertionError (the internal completeness check at the end) is a declared possible outcome, not proved impossible",
     ))
+
+
+# ====================================================================== public wrapper methods (delegation contracts)
+def install_wrappers(reg):
+    """The expansion methods of SuccessionDiagram are one-line delegations.  (a) Wrappers of verified drivers inherit the driver's whole
+    contract (parameter `sd` = `self`).  (b) Wrappers of drivers that are not under contract (expand_source_blocks, expand_source_SCCs,
+    expand_attractor_seeds) are verified against an ABSTRACT outcome: the driver's effect is assumed to be an uninterpreted function of the
+    diagram's ghost state token and the driver's arguments; the wrapper must produce exactly the outcome of the driver applied to the
+    caller's arguments in the documented positions - which is all a delegation can be wrong about."""
+    class Adapt:
+        """presents the context of a method (`self`) as the context of the driver function (`sd`)"""
+
+        def __init__(self, c, rename):
+            object.__setattr__(self, "_c", c)
+            object.__setattr__(self, "_r", rename)
+
+        def __getattr__(self, nm):
+            c, r = object.__getattribute__(self, "_c"), object.__getattribute__(self, "_r")
+            if nm == "old":
+                return Adapt(c.old, r) if c.old is not None else None
+            return getattr(c, r.get(nm, nm))
+
+        def local(self, nm):
+            return object.__getattribute__(self, "_c").local(nm)
+
+    def inherit(method, func_q, params, defaults, rename, props):
+        fc = reg.contracts[func_q]
+        ren = dict(rename, sd="self")
+        ad = lambda f: (lambda c: f(Adapt(c, ren)))
+        # postconditions that mention locals of the driver (e.g. its enumeration list) cannot be inherited by the wrapper
+        ens = [(nm, ad(f)) for nm, f in fc.ensures if not nm.startswith("step.") and not any(x in nm for x in (
+            "enumeration_of", "true_means_every_minimal", "true_means_target_region_explored"))]
+        reg.add(Contract(
+            "biobalm.succession_diagram.SuccessionDiagram." + method, params=[("self", SD)] + params, defaults=defaults, result_type=fc.result_type,
+            properties=props, requires=[ad(r) for r in fc.requires], modifies={"self": ALLF},
+            ensures=ens, may_raise={k: {"modifies": {"self": ALLF}} for k in fc.may_raise},
+            raises={k: [(nm, ad(f)) for nm, f in v] for k, v in fc.raises.items()},
+            note=f"delegation to {func_q.split('.')[-1]}: inherits its contract"), method_of="SD")
+
+    inherit("expand_bfs", "biobalm._sd_algorithms.expand_bfs.expand_bfs", [("node_id", OI), ("bfs_level_limit", OI), ("size_limit", OI)],
+            {"node_id": None, "bfs_level_limit": None, "size_limit": None}, {}, ("C02", "C03", "C04", "C15", "C18", "C19"))
+    inherit("expand_dfs", "biobalm._sd_algorithms.expand_dfs.expand_dfs", [("node_id", OI), ("dfs_stack_limit", OI), ("size_limit", OI)],
+            {"node_id": None, "dfs_stack_limit": None, "size_limit": None}, {}, ("C02", "C03", "C04", "C15", "C19"))
+    inherit("expand_to_target", "biobalm._sd_algorithms.expand_to_target.expand_to_target", [("target", TSpace), ("size_limit", OI)],
+            {"size_limit": None}, {}, ("C06", "C07", "C04", "C15"))
+    inherit("expand_minimal_spaces", "biobalm._sd_algorithms.expand_minimal_spaces.expand_minimal_spaces",
+            [("node_id", OI), ("size_limit", OI), ("skip_ignored", TBool)], {"node_id": None, "size_limit": None, "skip_ignored": False},
+            {"skip_remaining": "skip_ignored"}, ("C03", "C05", "C04", "C15"))
+
+    # ---- abstract outcomes of the drivers that are not under contract
+    def abstract_driver(qual, params, defaults, props, note):
+        sorts = [(I if t in (TInt, TBool) or isinstance(t, TOpt) else None) for _, t in params]
+        enc = {}
+
+        def code(c, nm, ty):
+            t = getattr(c, nm)
+            if ty == TBool:
+                return z3.If(t, 1, 0)
+            if isinstance(ty, TOpt):
+                return z3.If(ty.is_none(t), -1, ty.val(t))       # limits are non-negative where given; None is a distinct value
+            return t
+        F_tok = z3.Function("outcome_token_" + qual.split(".")[-1], *([I] * (len(params) + 1)), I)
+        F_res = z3.Function("outcome_result_" + qual.split(".")[-1], *([I] * (len(params) + 1)), B)
+
+        def args(c, sdname):
+            o = getattr(c.old, sdname)
+            return [o.tok] + [code(c, nm, ty) for nm, ty in params]
+        reg.add(Contract(
+            qual, params=[("sd", SD)] + params, defaults=defaults, result_type=TBool, trusted=True, properties=props,
+            modifies={"sd": ALLF + ["tok"]},
+            ensures=[("abstract_outcome", lambda c: z3.And(c.sd.tok == F_tok(*args(c, "sd")), c.result == F_res(*args(c, "sd"))))],
+            may_raise={"RuntimeError": {"modifies": {"sd": ALLF + ["tok"]}}},
+            note=note))
+        return F_tok, F_res, code
+
+    def delegate(method, qual, mparams, mdefaults, order, props, dparams, ddefaults, note):
+        """method(self, *mparams) must yield the abstract outcome of driver(sd=self, **{driver_param: method_param})"""
+        F_tok, F_res, code = abstract_driver(qual, dparams, ddefaults, props, note)
+        mtypes = dict(mparams)
+
+        def expected(c):
+            o = c.old.self
+            vals = []
+            for dn, dt in dparams:
+                src = order.get(dn)
+                if src is None:
+                    d = ddefaults[dn]
+                    vals.append(z3.IntVal(-1) if d is None else z3.IntVal(int(d)))
+                else:
+                    vals.append(code(c, src, mtypes[src]))
+            return [o.tok] + vals
+        reg.add(Contract(
+            "biobalm.succession_diagram.SuccessionDiagram." + method, params=[("self", SD)] + mparams, defaults=mdefaults, result_type=TBool,
+            properties=props, modifies={"self": ALLF + ["tok"]},
+            ensures=[("is_the_drivers_outcome_for_the_callers_arguments", lambda c: z3.And(
+                c.self.tok == F_tok(*expected(c)), c.result == F_res(*expected(c))))],
+            raises={"RuntimeError": []}, may_raise={"RuntimeError": {"modifies": {"self": ALLF + ["tok"]}}},
+            note=f"delegation to {qual.split('.')[-1]} (abstract outcome): arguments are passed on unchanged, in the documented positions"), method_of="SD")
+
+    delegate("expand_block", "biobalm._sd_algorithms.expand_source_blocks.expand_source_blocks",
+             [("find_motif_avoidant_attractors", TBool), ("size_limit", OI), ("optimize_source_nodes", TBool), ("exact_attractor_detection", TBool)],
+             {"find_motif_avoidant_attractors": True, "size_limit": None, "optimize_source_nodes": True, "exact_attractor_detection": False},
+             {"check_maa": "find_motif_avoidant_attractors", "size_limit": "size_limit", "optimize_source_nodes": "optimize_source_nodes",
+              "check_maa_exact": "exact_attractor_detection"},
+             ("C18", "C03", "C01", "C14", "C15"),
+             [("check_maa", TBool), ("size_limit", OI), ("optimize_source_nodes", TBool), ("check_maa_exact", TBool)],
+             {"check_maa": True, "size_limit": None, "optimize_source_nodes": True, "check_maa_exact": False},
+             "ASSUMED abstract outcome (block expansion is decided by the bounded stand-in only)")
+    delegate("expand_scc", "biobalm._sd_algorithms.expand_source_SCCs.expand_source_SCCs",
+             [("find_motif_avoidant_attractors", TBool)], {"find_motif_avoidant_attractors": True},
+             {"check_maa": "find_motif_avoidant_attractors"}, ("C18", "C03", "C01", "C14"),
+             [("check_maa", TBool), ("recursion", TInt)], {"check_maa": True, "recursion": 0},
+             "ASSUMED abstract outcome (source-SCC expansion is decided by the bounded stand-in only); the `expander` argument keeps its default")
+    delegate("expand_attractor_seeds", "biobalm._sd_algorithms.expand_attractor_seeds.expand_attractor_seeds",
+             [("size_limit", OI)], {"size_limit": None}, {"size_limit": "size_limit"}, ("C03", "C01", "C15"),
+             [("size_limit", OI)], {"size_limit": None},
+             "ASSUMED abstract outcome (attractor-seed expansion is decided by the bounded stand-in only)")
